@@ -3,6 +3,7 @@ import Victron.Model.Api
 import Victron.Model.Proto
 import Victron.Proofs.Proto
 import Victron.Props.C12
+import Victron.Proofs.Stream
 /-
   C11 — Connecting identifies the product correctly for every device id.
   Model: `connect` (NewRegisterApi) over an abstract transport + the regenerated tables; `connectVd`, the same
@@ -123,6 +124,33 @@ theorem connect_order (σ : Vd) (i1 i2 : Bool) :
       rw [hw2, hping]; simp
     | err e => exact ⟨a, 0, ha, by omega, by simpa using hping, by simp⟩
     | panic => exact ⟨a, 0, ha, by omega, by simpa using hping, by simp⟩
+
+/-- **A device that answers both is connected** (driver level, fault-free port): whatever amount of text-protocol
+    noise and asynchronous frames the device sends in front of its answers — a burst of any length, also left over from
+    before the connect when the ping is not the first command after an idle period — the ping is answered by any
+    complete non-async frame and the id query by the Done frame carrying `id`; the two exchanges yield `id` with exactly
+    two frames written (`:154\n` then `:451\n`, `connect_order`). Whether `id` then gives an object is `connect_iff`. -/
+theorem connect_answers_both (σ : Vd) (i1 i2 : Bool) (id : Nat) (hid : id < 65536)
+    (segs1 segs2 : List (Bytes × Bytes)) (noise1 noise2 body rest1 rest2 : Bytes) (hc : σ.port.Clean)
+    (hs1 : ∀ s ∈ segs1, 58 ∉ s.1 ∧ 10 ∉ s.2) (hn1 : 58 ∉ noise1) (hb : 10 ∉ body) (hA : ¬ (body.headD 0 = 65 ∧ body ≠ []))
+    (hs2 : ∀ s ∈ segs2, 58 ∉ s.1 ∧ 10 ∉ s.2) (hn2 : 58 ∉ noise2)
+    (hping : (if i1 then [] else σ.pending) ++ σ.port.reply σ.port.nW =
+      (segs1.map asyncSeg).flatten ++ noise1 ++ 58 :: body ++ 10 :: rest1)
+    (hdev : (if i2 then [] else rest1) ++ σ.port.reply (σ.port.nW + 1) =
+      (segs2.map asyncSeg).flatten ++ noise2 ++ frameOf (respBody 1 [id % 256, id / 256 % 256]) ++ rest2) :
+    ∃ σ', connectVd σ i1 i2 = (σ', .ok id) ∧ σ'.pending = rest2 ∧ σ'.port.nW = σ.port.nW + 2 := by
+  obtain ⟨σ1, h1, hp1, hrep1, hnW1, hc1⟩ := σ.ping_stream i1 segs1 noise1 body rest1 hc hs1 hn1 hb hA hping
+  have hreply : σ1.port.reply = σ.port.reply := by funext k; unfold Port.reply; rw [hrep1]
+  obtain ⟨σ2, h2, hp2, hnW2⟩ := σ1.getDeviceId_stream i2 id hid segs2 noise2 rest2 hc1 hs2 hn2
+    (by rw [hreply, hnW1, hp1]; exact hdev)
+  refine ⟨σ2, ?_, hp2, by rw [hnW2, hnW1]⟩
+  unfold connectVd
+  rw [h1]
+  exact h2
+
+/-- non-vacuity: a pong behind a burst of 40 asynchronous frames, the id behind text output -/
+example : (connectVd { port := { replies := [[(List.replicate 40 (asyncSeg ([], hexBytes [1, 2]))).flatten ++ frameOf (respBody 5 [0x16, 0x41])],
+      ["\r\nV\t12800".toList.map Char.toNat ++ frameOf (respBody 1 [0x56, 0xA0])]] } } true false).2 = .ok 0xA056 := by decide +kernel
 
 example : tx 1 0 = ":154\n".toList.map Char.toNat ∧ tx 4 0 = ":451\n".toList.map Char.toNat := by decide
 
